@@ -1,6 +1,8 @@
 import PokerVerif.Lemmas.TBBasic
 import PokerVerif.Lemmas.SMBasic
+import PokerVerif.Lemmas.TBSeatsRun
 import PokerVerif.Props.C07
+import PokerVerif.Props.C01
 /-!
 # C03 — Seat bookkeeping stays exclusive, consistent and all-or-nothing
 
@@ -13,9 +15,11 @@ Proved here: all-or-nothing for every seat-manager mutator and for `PlayerReserv
 `PlayerRedeemChips`; capacity; a vacated seat is empty again and an empty in-range seat accepts a new player.
 `UpdateTablePlayers` is leave-then-join: if the join half fails the departure is already applied (known finding D20,
 `C03_update_not_atomic_on_witness`); for batches mixing fixed and random seats the release of the fixed seats is
-modelled (`batchAdd`) and compared with the implementation on every run.  The consistency invariant itself
-(`TBSpec.c03Inv`) is evaluated on every snapshot of every run; its preservation over all histories is not a theorem
-yet (DESIGN.md, C03).
+modelled (`batchAdd`) and compared with the implementation on every run.  The table's half of the consistency
+invariant (seat map ↔ player list, `Booked`) is proved for every reachable state of every history whose arrivals were
+given seats the table showed free (`C03_bookkeeping_partial`); departures keep it unconditionally
+(`C03_leave_keeps_bookkeeping`).  The agreement with the seat manager (`TBSpec.c03Inv`) is evaluated on every snapshot of
+every run and is not yet derived for all histories (DESIGN.md, C03).
 -/
 namespace SM
 
@@ -181,6 +185,31 @@ theorem C03_stranger (s : State) (id : Nat) (c : Int) (h : findPlayerIdx s id = 
   · unfold join joinCore; simp [h]
   · unfold redeem; simp [h]
   · unfold finish; simp [h]
+
+/-- **C03 — a departure keeps the table's seat bookkeeping**: after a successful `PlayersLeave` the seat map (rebuilt for
+the players that stay) and the player list describe the same seating again — every occupied entry names the listed player
+sitting there, every listed player's seat names him, every other entry is `-1` — with one entry per seat. -/
+theorem C03_leave_keeps_bookkeeping (s : State) (ids : List Nat) (h : Booked s) : Booked (batchRemove s ids).1 :=
+  batchRemove_booked s ids h
+
+/-- **C03 (partial) — the seat bookkeeping of the table holds in every reachable state**: for every table, every history
+of every length (arrivals single and in batches, top-ups, departures, hands opened, settled and continued, pauses, …),
+*provided every arrival was given seats the table showed free, one each* (`ArrivalsOK`: the seat manager's answer agrees
+with the table's seat map — the other half of the invariant, evaluated by the monitor `c03Inv` on every observed state and
+not yet derived from the seat-manager model for all histories).  In particular: each seat holds at most one player, each
+player exactly one seat within the seat count, and seat map and player list name the same occupant for every seat. -/
+theorem C03_bookkeeping_partial (cfg : Meta) (b : Blind) (evs : List Event) (ha : ArrivalsOK (create cfg b) evs) :
+    Booked (run (create cfg b) evs) := run_booked _ evs (create_booked cfg b) ha
+
+/-- … and no two listed players share a seat -/
+theorem C03_one_player_per_seat_partial (cfg : Meta) (b : Blind) (evs : List Event) (ha : ArrivalsOK (create cfg b) evs) :
+    (run (create cfg b) evs).players.Pairwise (fun p q => p.seat ≠ q.seat) :=
+  MapTight.seats_distinct _ _ (C03_bookkeeping_partial cfg b evs ha).1
+
+-- non-vacuity: the example history (three arrivals, joins, a hand with an add-on, a departure) meets the premise
+example : ArrivalsOK (create exCfg exBlind) exHistory := by
+  simp only [exHistory, ArrivalsOK, EventArrivalOK, step, and_true]
+  decide
 
 /-- D20: a batch update whose join half fails has already applied its departures -/
 theorem C03_update_not_atomic_on_witness :
